@@ -13,6 +13,11 @@
         sort return Nil (F-C20-c), Nil.String() = "" is the sort key of null (F-C20-g).
    S  : JavaScript's methods of the same name on plain lists in a JS heap, and what pug
         prints for the results.
+   Second names: besides '- var x = y' (SAlias) a template hands an array to a mixin parameter,
+        a loop variable, an object member / array element, the value of ?: || &&, the result of
+        slice / pop on the holder: SPass (M: convert() of the value, the same *Array; S: the same
+        value).  The correspondence cases are flat programs: gen/c20.py `flatten` unfolds mixin
+        calls, block contents and loop bodies and gives every parameter / member a variable.
    Definitions only; proofs are in Proofs/ArrayOpsProofs.v. *)
 From Coq Require Import ZArith List Ascii String Bool.
 From PV Require Import Base.Bytes.
@@ -29,7 +34,10 @@ Inductive mode := Bind (r : nat) | Print | Discard.
 Inductive stmt :=
 | SCall (m : mode) (recv : nat) (f : meth) (args : list arg)
 | SAlias (x y : nat)          (* - var x = y *)
-| SPrintVar (x : nat).        (* = x *)
+| SPrintVar (x : nat)         (* = x *)
+| SPass (x : nat) (a : arg).  (* x is a new name for the value of a, handed over through an argument list, an array
+                                 or object literal, an element or member access or a method result:
+                                 mixin m(x) ... +m(a) | each x in [a, ..] | - var h = {k: a} (x is h.k) | h[0] | h.pop() *)
 Definition prog := list stmt.
 
 (* ------------------------------------------------------------------ shared helpers *)
@@ -351,6 +359,17 @@ Definition m_call (st : mstate) (recv : nat) (f : meth) (args : list arg)
   | _ => MUnmod
   end.
 
+(* a value handed over: __op__array / __op__map / Push convert() it (natives are boxed, a *Array is
+   the same *Array: convert returns an Object as it is), __tryindex / Member / Pop give the stored Object back.
+   No copy is made anywhere on the way. *)
+Definition box_lit (l : lit) : gval :=
+  match l with LNum z => Num z | LStr s => Str s | LBool b => Bool b end.
+Definition pass_val (env : list (nat * gval)) (a : arg) : mres gval :=
+  match a with
+  | ALit l => MOk (box_lit l)
+  | AVar y => mdo g <- of_opt (env_get y env); MOk (box g)
+  end.
+
 (* one statement: new state and what it writes ([] : nothing is written) *)
 Definition m_step (st : mstate) (s : stmt) : mres (mstate * list bytes) :=
   match s with
@@ -367,6 +386,9 @@ Definition m_step (st : mstate) (s : stmt) : mres (mstate * list bytes) :=
     MOk ({| m_env := env_set x g (m_env st); m_heap := m_heap st |}, [])
   | SPrintVar x =>
     mdo g <- of_opt (env_get x (m_env st)); mdo t <- of_opt (gtext g); MOk (st, [t])
+  | SPass x a =>
+    mdo g <- pass_val (m_env st) a;
+    MOk ({| m_env := env_set x g (m_env st); m_heap := m_heap st |}, [])
   end.
 
 Fixpoint m_run (p : prog) (st : mstate) : mres (mstate * list bytes) :=
@@ -615,6 +637,12 @@ Definition js_step (st : jstate) (s : stmt) : option (jstate * list bytes * list
     | Some j => match jshow j with Some t => Some (st, [t], []) | None => None end
     | None => None
     end
+  | SPass x a =>
+    (* argument passing, element and member access: the value itself - for an array, the same array *)
+    match jeval (j_env st) a with
+    | Some j => Some ({| j_env := env_set x j (j_env st); j_heap := j_heap st |}, [], [])
+    | None => None
+    end
   end.
 
 Fixpoint js_run (p : prog) (st : jstate) : option (jstate * list bytes * list flag) :=
@@ -672,3 +700,28 @@ Definition old_push (mem : list (list Z)) (s : gslice) (x : Z) : list (list Z) *
      {| sl_arr := sl_arr s; sl_off := sl_off s; sl_len := S (sl_len s) |})
   else
     (mem ++ [sl_items mem s ++ [x]], {| sl_arr := length mem; sl_off := 0; sl_len := S (sl_len s) |}).
+
+(* ================================================================== two names of one value
+   programs that differ only in which of the two names x, y they use at each place a variable is
+   READ (receiver, argument, source of an assignment, printed variable); neither name is re-bound *)
+Definition veq (x y a b : nat) : Prop := a = b \/ (a = x /\ b = y) \/ (a = y /\ b = x).
+Definition arg_swap (x y : nat) (a b : arg) : Prop :=
+  match a, b with
+  | ALit l, ALit l' => l = l'
+  | AVar u, AVar v => veq x y u v
+  | _, _ => False
+  end.
+Definition binder (s : stmt) : option nat :=
+  match s with
+  | SCall (Bind r) _ _ _ | SAlias r _ | SPass r _ => Some r
+  | _ => None
+  end.
+Inductive reads_swapped (x y : nat) : stmt -> stmt -> Prop :=
+| rs_call md u v f args args' :
+    veq x y u v -> Forall2 (arg_swap x y) args args' ->
+    reads_swapped x y (SCall md u f args) (SCall md v f args')
+| rs_alias r u v : veq x y u v -> reads_swapped x y (SAlias r u) (SAlias r v)
+| rs_print u v : veq x y u v -> reads_swapped x y (SPrintVar u) (SPrintVar v)
+| rs_pass r a b : arg_swap x y a b -> reads_swapped x y (SPass r a) (SPass r b).
+Definition swapped (x y : nat) (s s' : stmt) : Prop :=
+  reads_swapped x y s s' /\ binder s <> Some x /\ binder s <> Some y.
